@@ -1976,8 +1976,7 @@ func (ls *LState) Resume(th *LState, fn *LFunction, args ...LValue) (ResumeState
 	if th.Parent != nil {
 		return ResumeError, newApiErrorS(ApiErrorRun, "can not resume a non-suspended thread"), nil
 	}
-	th.Parent = ls
-	ls.G.CurrentThread = th
+	// see coResume: the thread switch is recorded after the arguments have been moved
 	if !isstarted {
 		cf := th.stack.Last()
 		th.currentFrame = cf
@@ -1997,6 +1996,8 @@ func (ls *LState) Resume(th *LState, fn *LFunction, args ...LValue) (ResumeState
 			th.reg.SetTop(base + th.yieldNRet)
 		}
 	}
+	th.Parent = ls
+	ls.G.CurrentThread = th
 	top := ls.GetTop()
 	threadRun(th)
 	haserror := LVIsFalse(ls.Get(top + 1))
